@@ -98,8 +98,8 @@ var progs = []prog{
 	}},
 }
 
-var fileContents = map[string]string{"empty": "", "one": "1\n", "two": "1\n2\n", "tail": "1\n2", "blank": "\n"}
-var fileOrder = []string{"empty", "one", "two", "tail", "blank"}
+var fileContents = map[string]string{"empty": "", "one": "1\n", "two": "1\n2\n", "tail": "1\n2", "blank": "\n", "endblank": "1\n\n", "midblank": "1\n\n2", "devnull": ""}
+var fileOrder = []string{"empty", "one", "two", "tail", "blank", "endblank", "midblank", "devnull"}
 
 func linesOf(content string) []string {
 	if content == "" {
@@ -133,7 +133,16 @@ func (s *scen) setup(base string) error {
 		}
 	}
 	for i, f := range s.files {
-		if err := os.WriteFile(filepath.Join(s.dir, "logs", fmt.Sprintf("%d_%s.log", i, f)), []byte(fileContents[f]), 0o644); err != nil {
+		name := filepath.Join(s.dir, "logs", fmt.Sprintf("%d_%s.log", i, f))
+		if f == "devnull" {
+			// a glob match that can be stat'ed but not tailed (a character device): it must be skipped, nothing else
+			_ = os.Remove(name)
+			if err := os.Symlink("/dev/null", name); err != nil {
+				return err
+			}
+			continue
+		}
+		if err := os.WriteFile(name, []byte(fileContents[f]), 0o644); err != nil {
 			return err
 		}
 	}
@@ -205,6 +214,9 @@ func main() {
 		total := int64(0)
 		for i, f := range s.files {
 			p := filepath.Join(s.dir, "logs", fmt.Sprintf("%d_%s.log", i, f))
+			if f == "devnull" {
+				continue
+			}
 			files[p] = linesOf(fileContents[f])
 			total += int64(len(files[p]))
 		}
@@ -283,5 +295,5 @@ func main() {
 		"map iteration order is fixed to sorted key order by the engine",
 		"the one library goroutine that enters instrumented code (prometheus DescribeByCollect during MustRegister, on an empty store, while the registering thread waits) takes free locks directly and is not a scheduled thread",
 	}
-	gsx.Finish(c, "schedule exploration of the whole one-shot pipeline (mtail.New + Run: tailer, file streams, runtime fan-out, VMs, exporter) on real files: program sets of size 1-2 (thorough: all, plus two of size 3) from {line counter, counter by getfilename(), per-file gauge of the last number, a program that stops on some lines, a program that raises runtime errors on some lines} × file sets of size 1-2 (thorough 3) from {empty, 1 line, 2 lines, unterminated last line, one blank line}; all schedules with <=1 deviation (thorough: 2 for single-program scenarios); Run returns, every controlled thread has finished, lines_total equals the number of lines, the final store equals the reference; distinct_nontrivial = schedules with >=1 deviation")
+	gsx.Finish(c, "schedule exploration of the whole one-shot pipeline (mtail.New + Run: tailer, file streams, runtime fan-out, VMs, exporter) on real files: program sets of size 1-2 (thorough: all, plus two of size 3) from {line counter, counter by getfilename(), per-file gauge of the last number, a program that stops on some lines, a program that raises runtime errors on some lines} × file sets of size 1-2 (thorough 3) from {empty, 1 line, 2 lines, unterminated last line, one blank line, trailing blank line, blank line in the middle with an unterminated tail, a matching path that is a character device}; all schedules with <=1 deviation (thorough: 2 for single-program scenarios); Run returns, every controlled thread has finished, lines_total equals the number of lines, the final store equals the reference; distinct_nontrivial = schedules with >=1 deviation")
 }
